@@ -71,16 +71,18 @@ type c20Prog struct {
 	Multi    bool       // some call of the active chain is written over several lines
 	Kinds    []string
 	Ctxs     []string
-	Msg      string // substring of the panic value that must appear (explicit panic only)
-	MultiOp  bool   // the failing operation itself (not a call) is written over two lines
-	GoatOnly bool   // a fault Go has no run-time counterpart for: kind of every mismatch = the fault's name
+	Msg      string         // substring of the panic value that must appear (explicit panic only)
+	MultiOp  bool           // the failing operation itself (not a call) is written over two lines
+	Noises   map[string]int // completed calls planted before the call / the fault of each frame, by kind
+	GoatOnly bool           // a fault Go has no run-time counterpart for: kind of every mismatch = the fault's name
 }
 
 type c20Level struct {
 	kind  string
 	ctx   string
 	multi string
-	k     int // recursion depth for rec / mutual
+	k     int // recursion depth for rec / mutual / rec-unwind
+	j     int // rec-unwind: the recursion level that goes on after the deeper ones have returned
 	// filled while emitting
 	name     string     // frame name of code inside this level
 	call     c20Frame   // the call this level makes to the next one
@@ -100,6 +102,9 @@ type c20Gen struct {
 	mFault bool // write the failing operation over two lines where the fault kind allows it
 	model  bool
 	useStr bool // program imports strings
+	nid    int  // counter for the names of noise variables
+	lam    int  // > 0: inside the body of a local lambda
+	noises map[string]int
 }
 
 func (q *c20Gen) ln(ind int, s string) int {
@@ -122,10 +127,10 @@ func (q *c20Gen) stmt(ind int, pre string, e []string, post string) (int, int) {
 	return lo, hi
 }
 
-var c20KindsAll = []string{"func", "func", "func", "method", "method", "method-lit", "method-inner", "lambda-global", "lambda-local", "field", "variadic", "variadic-spread", "rec", "mutual", "funcparam"}
-var c20KindsModel = []string{"func", "func", "func", "lambda-global", "lambda-local", "variadic", "variadic-spread", "rec", "mutual", "funcparam"}
-var c20CtxAll = []string{"plain", "return", "for", "range", "forinit", "forcond", "forpost", "if", "ifinit", "ifthen", "ifelse", "elseif", "switchtag", "switchcase", "switcharm", "nested", "compound", "indexassign", "andor", "unary", "mapval", "structlit", "slicelit", "callarg2", "discard", "multiassign", "structlit-ml", "binop-ml", "arglist-ml"}
-var c20CtxModel = []string{"plain", "return", "for", "range", "forinit", "forcond", "forpost", "if", "ifinit", "ifthen", "ifelse", "elseif", "switchtag", "switchcase", "switcharm", "nested", "compound", "indexassign", "andor", "unary", "slicelit", "callarg2", "discard", "binop-ml", "arglist-ml"}
+var c20KindsAll = []string{"func", "func", "func", "method", "method", "method-lit", "method-inner", "lambda-global", "lambda-local", "field", "variadic", "variadic-spread", "rec", "mutual", "rec-unwind", "funcparam"}
+var c20KindsModel = []string{"func", "func", "func", "lambda-global", "lambda-local", "variadic", "variadic-spread", "rec", "mutual", "rec-unwind", "funcparam"}
+var c20CtxAll = []string{"plain", "return", "for", "range", "forinit", "forcond", "forpost", "if", "ifinit", "ifthen", "ifelse", "elseif", "switchtag", "switchcase", "switcharm", "nested", "compound", "indexassign", "andor", "unary", "mapval", "structlit", "slicelit", "callarg2", "discard", "multiassign", "structlit-ml", "binop-ml", "arglist-ml", "for-later", "range-later"}
+var c20CtxModel = []string{"plain", "return", "for", "range", "forinit", "forcond", "forpost", "if", "ifinit", "ifthen", "ifelse", "elseif", "switchtag", "switchcase", "switcharm", "nested", "compound", "indexassign", "andor", "unary", "slicelit", "callarg2", "discard", "binop-ml", "arglist-ml", "for-later", "range-later"}
 var c20FaultsAll = []string{"div", "mod", "divassign", "index", "indexset", "indexneg", "nilslice", "strindex", "slicebound", "slicelow", "strslice", "nilmap", "nilmapint", "panic", "nilfunc", "nilfield", "nilfieldset", "nilinner", "nilfieldfunc", "nilrecvcall", "makeneg", "native",
 	"opidx-read", "opidx-div", "opidx-dec", "opfield-div", "opfield-nested-div", "opfield-nested-nil", "nilptr-inc", "nilptr-opassign", "mapstruct-inc", "opmap-mod", "fieldidx-inc", "tuple-store", "tuple-store2"}
 var c20FaultsModel = []string{"div", "mod", "divassign", "index", "indexset", "indexneg", "nilslice", "strindex", "slicebound", "slicelow", "strslice", "panic", "nilfunc", "makeneg", "opidx-read", "opidx-div", "opidx-dec", "tuple-store", "tuple-store2"}
@@ -142,7 +147,7 @@ func (q *c20Gen) callee(j int) (fn string, args string, isMethod bool) {
 		return fmt.Sprintf("c%d", j), "a + 1, 1, 2", false
 	case "variadic-spread":
 		return fmt.Sprintf("c%d", j), "a + 1, ys...", false
-	case "rec", "mutual":
+	case "rec", "mutual", "rec-unwind":
 		return fmt.Sprintf("c%d", j), fmt.Sprintf("a + 1, %d", l.k), false
 	case "method":
 		return fmt.Sprintf("t.m%d", j), "a + 1", true
@@ -172,7 +177,9 @@ func (q *c20Gen) prelude(ind, j int) {
 		line := q.ln(ind, "h := func(a int) int {")
 		l.declLine = line
 		l.name = fmt.Sprintf("main.main/main.go:%d", line)
+		q.lam++
 		q.body(ind+1, j)
+		q.lam--
 		q.ln(ind, "}")
 	}
 }
@@ -211,6 +218,86 @@ func (q *c20Gen) callLines(i, j int) []string {
 	return []string{fn + "(" + args + ")"}
 }
 
+var c20NoiseAll = []string{"void", "void", "void-method", "one-used", "one-discard", "two-used", "two-discard", "two-half", "variadic-void", "variadic-void-empty", "variadic-void-spread", "lambda-void-global", "lambda-void-local", "field-void", "funcparam-void", "nested", "loop", "unwind", "unwind-value", "in-condition", "method-one"}
+var c20NoiseModel = []string{"void", "void", "one-used", "one-discard", "two-used", "two-discard", "two-half", "variadic-void", "variadic-void-empty", "variadic-void-spread", "lambda-void-global", "lambda-void-local", "funcparam-void", "nested", "loop", "unwind", "unwind-value", "in-condition"}
+
+// noise emits 0..3 statements whose calls COMPLETE before the frame goes on to its call / its fault: none of them
+// may appear in the error text (one line per ACTIVE call).  Uses only the parameter a and package-level names.
+func (q *c20Gen) noise(ind int) {
+	kinds := c20NoiseAll
+	if q.model {
+		kinds = c20NoiseModel
+	}
+	for n := q.r.intn(4); n > 0; n-- {
+		k := pick(q.r, kinds)
+		if k == "lambda-void-local" && q.lam > 0 {
+			k = "void"
+		}
+		q.nid++
+		u := q.nid
+		if q.noises != nil {
+			q.noises[k]++
+		}
+		switch k {
+		case "void":
+			q.ln(ind, "note(a)")
+		case "void-method":
+			q.ln(ind, fmt.Sprintf("n%d := &T{}", u))
+			q.ln(ind, fmt.Sprintf("n%d.touch(a)", u))
+		case "void-method-lit":
+			q.ln(ind, "(&T{}).touch(a)")
+		case "one-used":
+			q.ln(ind, fmt.Sprintf("n%d := one(a)", u))
+			q.ln(ind, fmt.Sprintf("_ = n%d", u))
+		case "one-discard":
+			q.ln(ind, "one(a)")
+		case "two-used":
+			q.ln(ind, fmt.Sprintf("n%d, m%d := pair(a)", u, u))
+			q.ln(ind, fmt.Sprintf("_ = n%d + m%d", u, u))
+		case "two-discard":
+			q.ln(ind, "pair(a)")
+		case "two-half":
+			q.ln(ind, fmt.Sprintf("_, n%d := pair(a)", u))
+			q.ln(ind, fmt.Sprintf("_ = n%d", u))
+		case "variadic-void":
+			q.ln(ind, "vnote(a, 1, 2)")
+		case "variadic-void-empty":
+			q.ln(ind, "vnote()")
+		case "variadic-void-spread":
+			q.ln(ind, fmt.Sprintf("n%d := []int{a, a}", u))
+			q.ln(ind, fmt.Sprintf("vnote(n%d...)", u))
+		case "lambda-void-global":
+			q.ln(ind, "hv(a)")
+		case "lambda-void-local":
+			q.ln(ind, fmt.Sprintf("n%d := func(x int) {", u))
+			q.ln(ind+1, "fmt.Println(\"w\", x)")
+			q.ln(ind, "}")
+			q.ln(ind, fmt.Sprintf("n%d(a)", u))
+		case "field-void":
+			q.ln(ind, fmt.Sprintf("n%d := &T{g: note}", u))
+			q.ln(ind, fmt.Sprintf("n%d.g(a)", u))
+		case "funcparam-void":
+			q.ln(ind, "run(note, a)")
+		case "nested":
+			q.ln(ind, "deep(a)")
+		case "loop":
+			q.ln(ind, fmt.Sprintf("for n%d := 0; n%d < 3; n%d++ {", u, u, u))
+			q.ln(ind+1, fmt.Sprintf("note(n%d)", u))
+			q.ln(ind, "}")
+		case "unwind":
+			q.ln(ind, "unwind(a, 3)")
+		case "unwind-value":
+			q.ln(ind, "_ = unwindv(a, 2)")
+		case "in-condition":
+			q.ln(ind, "if one(a) > 0 {")
+			q.ln(ind+1, "note(a)")
+			q.ln(ind, "}")
+		case "method-one":
+			q.ln(ind, "_ = (&T{v: a}).get()")
+		}
+	}
+}
+
 // body emits the body of level i at indentation ind (header and footer are the caller's business).
 func (q *c20Gen) body(ind, i int) {
 	l := q.lv[i]
@@ -229,7 +316,19 @@ func (q *c20Gen) body(ind, i int) {
 		q.ln(ind, "}")
 		// d<i>'s call line is known once d<i> is emitted (emitTop); recorded there
 		l.declLine = rl
+	case "rec-unwind":
+		q.ln(ind, "r0 := 0")
+		q.ln(ind, "if k > 0 {")
+		rl := q.ln(ind+1, fmt.Sprintf("r0 = c%d(a, k-1)", i))
+		q.ln(ind, "}")
+		q.ln(ind, fmt.Sprintf("if k != %d {", l.j))
+		q.ln(ind+1, "return r0")
+		q.ln(ind, "}")
+		for n := 0; n < l.k-l.j; n++ {
+			l.entry = append(l.entry, c20Frame{l.name, rl, rl})
+		}
 	}
+	q.noise(ind)
 	if i == q.depth {
 		q.faultBody(ind)
 		return
@@ -359,6 +458,24 @@ func (q *c20Gen) body(ind, i int) {
 	case "multiassign":
 		lo, hi = q.stmt(ind, "x, y := a, ", e, "")
 		q.ln(ind, "return x + y")
+	case "for-later": // earlier iterations complete void calls, a later iteration makes the call
+		q.ln(ind, "r := 0")
+		q.ln(ind, "for i := 0; i < 3; i++ {")
+		q.ln(ind+1, "note(i)")
+		q.ln(ind+1, "if i == 2 {")
+		lo, hi = q.stmt(ind+2, "r += ", e, "")
+		q.ln(ind+1, "}")
+		q.ln(ind, "}")
+		q.ln(ind, "return r")
+	case "range-later":
+		q.ln(ind, "r := 0")
+		q.ln(ind, "for _, v := range []int{1, 2, 3} {")
+		q.ln(ind+1, "vnote(v, v)")
+		q.ln(ind+1, "if v == 3 {")
+		lo, hi = q.stmt(ind+2, "r += ", e, "")
+		q.ln(ind+1, "}")
+		q.ln(ind, "}")
+		q.ln(ind, "return r")
 	case "structlit-ml": // the statement spans several lines, the call itself is on one line
 		q.ln(ind, "u := &T{")
 		lo, hi = q.stmt(ind+1, "v: ", e, ",")
@@ -430,11 +547,11 @@ func (q *c20Gen) faultBody(ind int) {
 	// compound assignments: the READ of the target or the OPERATION faults (instructions the assignment node emits
 	// between the code of its sub-expressions), and tuple assignments whose first / second store faults
 	case "opidx-read":
-		f = []fl{{"xs := []int{1}", false}, {"xs[a+3] += 2", true}, {"return xs[0]", false}}
+		f = []fl{{"vs := []int{1}", false}, {"vs[a+3] += 2", true}, {"return vs[0]", false}}
 	case "opidx-div":
-		f = []fl{{"xs := []int{1}", false}, {"z := a - a", false}, {"xs[0] /= z", true}, {"return xs[0]", false}}
+		f = []fl{{"vs := []int{1}", false}, {"z := a - a", false}, {"vs[0] /= z", true}, {"return vs[0]", false}}
 	case "opidx-dec":
-		f = []fl{{"xs := []int{1}", false}, {"xs[a+3]--", true}, {"return xs[0]", false}}
+		f = []fl{{"vs := []int{1}", false}, {"vs[a+3]--", true}, {"return vs[0]", false}}
 	case "opfield-div":
 		f = []fl{{"t := &T{v: 5}", false}, {"z := a - a", false}, {"t.v /= z", true}, {"return t.v", false}}
 	case "opfield-nested-div":
@@ -469,6 +586,7 @@ func (q *c20Gen) faultBody(ind int) {
 	case "loop":
 		q.ln(ind, "for i := 0; i < 3; i++ {")
 		q.ln(ind+1, "fmt.Println(\"it\", i)")
+		q.ln(ind+1, "note(i)")
 		q.ln(ind+1, "if i == 1 {")
 		in = ind + 2
 		tail = "}}"
@@ -484,6 +602,7 @@ func (q *c20Gen) faultBody(ind int) {
 	case "range":
 		q.ln(ind, "for _, v := range []int{5, 6} {")
 		q.ln(ind+1, "fmt.Println(\"v\", v)")
+		q.ln(ind+1, "note(v)")
 		in = ind + 1
 		tail = "}"
 	}
@@ -531,7 +650,7 @@ func (q *c20Gen) emitTop(i int) {
 		q.ln(0, fmt.Sprintf("func c%d(a int) int {", i))
 	case "variadic", "variadic-spread":
 		q.ln(0, fmt.Sprintf("func c%d(a int, xs ...int) int {", i))
-	case "rec", "mutual":
+	case "rec", "mutual", "rec-unwind":
 		q.ln(0, fmt.Sprintf("func c%d(a int, k int) int {", i))
 	case "method", "method-lit", "method-inner":
 		q.ln(0, fmt.Sprintf("func (o *T) m%d(a int) int {", i))
@@ -558,7 +677,7 @@ var c20ForceFault string
 
 // genC20 builds one program.  multi: write some calls of the chain over several lines.
 func genC20(r *rng, depth int, multi bool, model bool) *c20Prog {
-	q := &c20Gen{r: r, depth: depth, model: model}
+	q := &c20Gen{r: r, depth: depth, model: model, noises: map[string]int{}}
 	kinds, ctxs, faults := c20KindsAll, c20CtxAll, c20FaultsAll
 	if model {
 		kinds, ctxs, faults = c20KindsModel, c20CtxModel, c20FaultsModel
@@ -575,7 +694,12 @@ func genC20(r *rng, depth int, multi bool, model bool) *c20Prog {
 	budget := 36 // bound on the number of active calls
 	for i := 1; i <= depth; i++ {
 		l := &c20Level{kind: pick(r, kinds), ctx: pick(r, ctxs)}
-		if (l.kind == "rec" || l.kind == "mutual") && budget-depth > 4 {
+		if l.kind == "rec-unwind" {
+			// descends k levels, unwinds to level j (those calls COMPLETE), and goes on from there
+			l.k = 1 + r.intn(4)
+			l.j = 1 + r.intn(l.k)
+			budget -= l.k - l.j
+		} else if (l.kind == "rec" || l.kind == "mutual") && budget-depth > 4 {
 			l.k = 1 + r.intn(4)
 			if r.chance(15) {
 				l.k = 5 + r.intn(8)
@@ -597,7 +721,7 @@ func genC20(r *rng, depth int, multi bool, model bool) *c20Prog {
 			l.multi = pick(r, []string{"args", "close", "chain", "tail"})
 		}
 		switch l.kind {
-		case "func", "field", "funcparam", "variadic", "variadic-spread", "rec", "mutual":
+		case "func", "field", "funcparam", "variadic", "variadic-spread", "rec", "mutual", "rec-unwind":
 			l.name = fmt.Sprintf("main.c%d", i)
 		case "method", "method-lit", "method-inner":
 			l.name = fmt.Sprintf("main.T.m%d", i)
@@ -638,6 +762,7 @@ func genC20(r *rng, depth int, multi bool, model bool) *c20Prog {
 		q.ln(1, "v  int")
 		q.ln(1, "f  func(int) int")
 		q.ln(1, "xs []int")
+		q.ln(1, "g  func(int)")
 		q.ln(1, "in *T")
 		q.ln(0, "}")
 		q.ln(0, "")
@@ -651,6 +776,36 @@ func genC20(r *rng, depth int, multi bool, model bool) *c20Prog {
 	q.ln(1, "return a + b")
 	q.ln(0, "}")
 	q.ln(0, "")
+	// callees that COMPLETE: void function / method / lambda / variadic, one and two results, a completed nested
+	// chain, recursion that returns
+	for _, d := range [][]string{
+		{"func note(a int) {", "\tfmt.Println(\"note\", a)", "}"},
+		{"func one(a int) int {", "\treturn a + 1", "}"},
+		{"func pair(a int) (int, int) {", "\tnote(a)", "\treturn a, a + 1", "}"},
+		{"func vnote(xs ...int) {", "\tfor _, x := range xs {", "\t\tnote(x)", "\t}", "}"},
+		{"var hv = func(a int) {", "\tfmt.Println(\"hv\", a)", "}"},
+		{"func run(f func(int), a int) {", "\tf(a)", "}"},
+		{"func deep(a int) {", "\tnote(a)", "\t_ = one(a)", "\tinner(a)", "\tnote(a + 2)", "}"},
+		{"func inner(a int) {", "\tnote(a + 1)", "\tpair(a)", "}"},
+		{"func unwind(a int, k int) {", "\tif k > 0 {", "\t\tunwind(a, k-1)", "\t}", "\tnote(k)", "}"},
+		{"func unwindv(a int, k int) int {", "\tif k > 0 {", "\t\treturn unwindv(a, k-1) + 1", "\t}", "\tnote(k)", "\treturn a", "}"},
+	} {
+		for _, l := range d {
+			q.ln(0, l)
+		}
+		q.ln(0, "")
+	}
+	if !model {
+		for _, d := range [][]string{
+			{"func (o *T) touch(a int) {", "\to.v = a", "\tnote(a)", "}"},
+			{"func (o *T) get() int {", "\treturn o.v", "}"},
+		} {
+			for _, l := range d {
+				q.ln(0, l)
+			}
+			q.ln(0, "")
+		}
+	}
 	q.ln(0, "func apply(f func(int) int, a int) int {")
 	applyLine := q.ln(1, "return f(a)")
 	q.ln(0, "}")
@@ -706,6 +861,11 @@ func genC20(r *rng, depth int, multi bool, model bool) *c20Prog {
 			if q.lv[1].kind == "field" {
 				q.ln(ind, "t := &T{f: c1}")
 			}
+			if !needA {
+				q.ln(ind, "a := 7")
+				q.ln(ind, "_ = a")
+			}
+			q.noise(ind)
 			q.prelude(ind, 1)
 			e := fix(q.callLines(0, 1))
 			var lo, hi int
@@ -782,6 +942,7 @@ func genC20(r *rng, depth int, multi bool, model bool) *c20Prog {
 	}
 
 	p := &c20Prog{Src: strings.Join(q.lines, "\n") + "\n", Fault: q.fault, Wrap: q.wrap, Entry: entry, Depth: depth, Again: again}
+	p.Noises = q.noises
 	if q.fault == "panic" {
 		p.Msg = "boom"
 	}
@@ -974,6 +1135,7 @@ type c20Parsed struct {
 
 var c20FirstRe = regexp.MustCompile(`^(?:(.+?)\(\.\.\.\) )?main/main\.go:(\d+):(\d+): ([A-Z]+): (.*)$`)
 var c20BtRe = regexp.MustCompile(`^\t(?:(.+)\(\.\.\.\) )?main/main\.go:(\d+):(\d+)$`)
+var c20DigitsRe = regexp.MustCompile(`\d+`)
 var c20LambdaRe = regexp.MustCompile(`^(main\.main/main\.go:\d+):\d+$`)
 
 // c20Parse: the error text as (function, line, column) per line; op = opcode name, msg = panic value.
@@ -1080,7 +1242,7 @@ func c20Check(st *stats, p *c20Prog) {
 			if p.Fault == "native-callback" && kind != "host-panic" {
 				kind = p.Fault // open finding: its own kind; every other class is an ordinary check
 			}
-			st.mismatchG(kind+"|"+class+"|"+mode+"|"+strings.SplitN(what, ":", 2)[0], c20Mismatch{Kind: kind, Fault: p.Fault, Mode: mode, What: what, Expected: exp, Got: got, Src: p.Src})
+			st.mismatchG(kind+"|"+class+"|"+mode+"|"+c20DigitsRe.ReplaceAllString(strings.SplitN(what, ":", 2)[0], "N"), c20Mismatch{Kind: kind, Fault: p.Fault, Mode: mode, What: what, Expected: exp, Got: got, Src: p.Src})
 		}
 		if t.Panic != "" || t.Panic2 != "" {
 			rec("host-panic", "a Go panic escaped the VM: "+t.Panic+t.Panic2, "", "")
@@ -1159,7 +1321,7 @@ func c20Check(st *stats, p *c20Prog) {
 func cmdC20Script(seed uint64, n int, dir string) {
 	r := newRng(c20Seed(seed))
 	st := newStats()
-	cov := map[string]map[string]int{"fault": {}, "wrap": {}, "entry": {}, "callee kind": {}, "call context": {}, "active calls": {}}
+	cov := map[string]map[string]int{"fault": {}, "wrap": {}, "entry": {}, "callee kind": {}, "call context": {}, "active calls": {}, "completed call": {}}
 	var progs []*c20Prog
 	for c := 0; c < n; c++ {
 		depth := 1 + c%30
@@ -1182,6 +1344,9 @@ func cmdC20Script(seed uint64, n int, dir string) {
 		}
 		for _, k := range p.Ctxs {
 			cov["call context"][k]++
+		}
+		for k, v := range p.Noises {
+			cov["completed call"][k] += v
 		}
 		cov["active calls"][fmt.Sprintf("%02d-%02d", (len(p.Frames)-1)/5*5, (len(p.Frames)-1)/5*5+4)]++
 		c20Check(st, p)
